@@ -71,11 +71,29 @@ def write_market(symbols, path):
                 f.write('%04d-%02d-%02d,%s,%s,%s,%s,%s,%s\n' % (y, m, d, fmt(o), fmt(hi), fmt(lo), fmt(c), fmt(a), vol))
 
 
+def write_junk(symbols, path):
+    """Files a data directory may hold beside the bar files and that are not bar files: a compressed archive copy of
+    the first symbol's file with other (older) prices, a backup, notes."""
+    import gzip
+    name = sorted(symbols)[0]
+    with gzip.open(os.path.join(path, name + '.csv.gz'), 'wt') as f:
+        f.write('Date,Open,High,Low,Close,Adj Close,Volume\n')
+        for y, m, d, o, c, a in symbols[name]:
+            v = [('' if x is None else repr(float(x) * 2.5)) for x in (o, o, o, c, a)]
+            f.write('%04d-%02d-%02d,%s,1000\n' % (y, m, d, ','.join(v)))
+    with open(os.path.join(path, name + '.csv.bak'), 'w') as f:
+        f.write('Date,Open,High,Low,Close,Adj Close,Volume\n1999-01-04,1,1,1,1,1,1\n')
+    with open(os.path.join(path, 'NOTES.txt'), 'w') as f:
+        f.write('prices as downloaded\n')
+
+
 @contextlib.contextmanager
-def csv_dir(symbols):
+def csv_dir(symbols, junk=False):
     path = tempfile.mkdtemp(prefix='vq_', dir=_TMP)
     try:
         write_market(symbols, path)
+        if junk:
+            write_junk(symbols, path)
         yield path
     finally:
         shutil.rmtree(path, ignore_errors=True)
